@@ -49,6 +49,26 @@ CHECKS = {
     note="Assumed: A1 reals; item results are well-formed entries with grades in [0,1] (C01 contracts of the subgraders); str.join/format uninterpreted (A6). "
          "check_response itself (str.split, closures from padded_check, Munkres) is outside the proved part; Munkres optimality is C06.",
     design="6/C07"),
+ 'C01': dict(
+    technique="contract-based deductive verification (pyvc on the real result-building functions, shape predicates taken from the statement); bounded run-time checks over all grader classes as stand-in",
+    text="Proved for all inputs: grade_decimal_to_ok is the statement's 0/1/otherwise map; standardize_cfn_return returns a fresh well-formed entry for True/False/'partial'/dict; "
+         "apply_attempt_based_credit preserves the result structure entry by entry and keeps ok consistent (C17 contract); ItemGrader.check returns a fresh well-formed entry; "
+         "consolidate_grades / consolidate_single_return / process_grade_list keep grades in [0,1] with ok recomputed from the grade; MathMixin.consolidate_results returns either the pruned "
+         "answer (exactly the keys ok/grade_decimal/msg) or a failing result whose ok is in line with its grade (this clause failed before the fix: commit d653574). "
+         "Bounded (not proved): AbstractGrader.__call__ as a whole (key stripping, debug log only with debug=True, one entry per input) for every public grader class x configuration/input pools.",
+    note="Assumed: A1; comparers and subgraders return well-formed results (A15; built-in ones are C16); string formatting uninterpreted (A6). AbstractGrader.__call__, ListGrader.perform_check/"
+         "get_best_result (numpy), MatrixGrader/IntervalGrader.check_response are not under contract yet: bounded tier only.",
+    design="6/C01"),
+ 'C04': dict(
+    technique="contract-based deductive verification (pyvc on the real within_tolerance and consolidate_results; failure count as an uninterpreted prefix count with induction-proved monotonicity); bounded checks with a recording sampling set as stand-in",
+    text="Proved for all real/infinite scalars: within_tolerance(x, y, t) is |x - y| <= t for a numeric tolerance, |x - y| <= |x| * p for a percentage (relative to the FIRST argument, "
+         "the author's value), and an infinite value matches only the same infinity. Proved for any number of comparer results and any failable_evals: consolidate_results returns the answer's "
+         "(pruned) credit exactly when the number of results that are not True does not exceed failable_evals and not (single result that fails), otherwise a failing result with less than "
+         "full credit; it writes nothing but the ok of the result it returns. Bounded (not proved): FormulaGrader end to end with a recording sampler (same sample for author and student, "
+         "argument order in EqualityComparer, multiplication by the answer's credit), arrays (Frobenius norm), rewrites.",
+    note="Assumed: A1 reals; A8 np.linalg.norm is |.| on scalars; percentage_as_number is trusted (string parsing); 'algebraically identical rewritings earn full credit' is decidable here only "
+         "through the bounded tier (it needs the parser and real identities in floats).",
+    design="6/C04"),
 }
 
 NOT_YET = {}
